@@ -272,3 +272,19 @@ Example C10_spelled_rebuild_keeps :
     node_at t' ["."; "data"; "ns"; "function"; "g.mcfunction"]%string = Some (NFile (Raw "say g")).
 Proof. exact p_rebuild_keeps. Qed.
 Print Assumptions C10_spelled_rebuild_keeps.
+
+(* Round 5: a resource of the program goes to an override namespace only when its FIRST SEGMENT EQUALS a declared name; a folder
+   whose name merely starts with (or is a prefix of) a declared name is the pack's own: its file lies below data/<ns>. *)
+Theorem C10_override_needs_equal_segment : forall c h x r,
+  ~ In x (h_overrides h) ->
+  is_prefix (ns_dir c) (func_file c h (x :: r)) = true /\ is_prefix (ns_dir c) (json_file c h (x :: r)) = true.
+Proof.
+  intros c h x r H. unfold func_file, json_file.
+  destruct (mem x (h_overrides h)) eqn:E; [exfalso; apply H, mem_in, E|].
+  split; apply is_prefix_app.
+Qed.
+Print Assumptions C10_override_needs_equal_segment.
+Example C10_prefix_name_is_own :
+  func_file (mkCfg "ns" "function" "" "__load__" "__tick__") (mkHdr [] ["lib"%string] None false) ["library"; "init"]%string
+  = ["."; "data"; "ns"; "function"; "library"; "init.mcfunction"]%string.
+Proof. reflexivity. Qed.
